@@ -107,7 +107,7 @@ pub fn suite(name: &str, thorough: bool) -> Suite {
             s.alphabet = alphabet(&["N", "I", "C2:a", "C3:1", "C1:0", "HC2", "HN1", "HD", "BN2", "BXa", "BX1", "BD", "S", "EF2", "V", "CMx:1", "CV3:1", "CV2:9", "CV3:20", "CV3:22", "BV1", "BV9"]);
             s.kinds = kinds_where(|k| k.consuming);
             s.terms = vec![Term::Drop, Term::Seq(ALL), Term::Seq(1), Term::Seq(0)];
-            s.depth = if thorough { 6 } else { 4 };
+            s.depth = if thorough { 5 } else { 4 };
         }
         "C10" => {
             s.alphabet = alphabet(&["N", "I", "C2:a", "C3:1", "CL1:a", "C1:0", "HC2", "HN1", "HD", "BN2", "BN3", "BXa", "BX1", "BD", "S", "EF2", "CMx:1", "CHp1:a"]);
